@@ -103,6 +103,9 @@ struct Def {
     variants: Vec<Variant>,
     tattrs: Vec<TAttr>,
     depth: usize,
+    /// field-less struct deriving `Component` only (`ConvertSaveload` needs at least one converted field);
+    /// never nested in other definitions, no conversion cases
+    comp_only: bool,
 }
 
 /// One `conv` line: a top-level value split into its fields (so that `keep=` can project it).
@@ -160,7 +163,7 @@ fn ty_depth(ty: &Ty, defs: &[Def]) -> usize {
 
 /// A type argument for a nested generic definition / a top-level instantiation.
 fn gen_arg(rng: &mut Rng, defs: &[Def], lo: usize, nparams_here: usize, allow_nested: bool) -> Ty {
-    let simple: Vec<usize> = (lo..defs.len()).filter(|&j| defs[j].depth == 1 && defs[j].nparams == 0).collect();
+    let simple: Vec<usize> = (lo..defs.len()).filter(|&j| defs[j].depth == 1 && defs[j].nparams == 0 && !defs[j].comp_only).collect();
     let w_nested = if allow_nested && !simple.is_empty() { 15 } else { 0 };
     match rng.weighted(&[35, 30, if nparams_here > 0 { 20 } else { 0 }, w_nested]) {
         0 => Ty::Ent,
@@ -171,7 +174,7 @@ fn gen_arg(rng: &mut Rng, defs: &[Def], lo: usize, nparams_here: usize, allow_ne
 }
 
 fn gen_field_ty(rng: &mut Rng, defs: &[Def], lo: usize, nparams: usize, nested_so_far: &mut usize) -> Ty {
-    let cands: Vec<usize> = (lo..defs.len()).filter(|&j| defs[j].depth <= 2).collect();
+    let cands: Vec<usize> = (lo..defs.len()).filter(|&j| defs[j].depth <= 2 && !defs[j].comp_only).collect();
     let w_nested = if !cands.is_empty() && *nested_so_far < 3 { 22 } else { 0 };
     match rng.weighted(&[30, 30, if nparams > 0 { 18 } else { 0 }, w_nested, 6]) {
         0 => Ty::Ent,
@@ -253,12 +256,15 @@ fn gen_def(rng: &mut Rng, defs: &[Def], lo: usize, index: usize) -> Def {
         1 => Kind::Tuple,
         _ => Kind::Enum,
     };
-    let nparams = rng.weighted(&[60, 28, 12]);
+    let mut nparams = rng.weighted(&[60, 28, 12]);
+    // field-less structs (`struct T {}`, `struct T();`, `struct T;`): no parameters (an unused one does not compile)
+    let fieldless = kind != Kind::Enum && rng.chance(1, 10);
+    if fieldless { nparams = 0; }
     let mut nested = 0usize;
     let mut uniq = 0usize;
     let mut variants: Vec<Variant> = Vec::new();
     if kind != Kind::Enum {
-        let n = 1 + rng.weighted(&[10, 16, 16, 14, 10, 6, 4, 4]);
+        let n = if fieldless { 0 } else { 1 + rng.weighted(&[10, 16, 16, 14, 10, 6, 4, 4]) };
         let fields = gen_fields(rng, defs, lo, nparams, n, kind == Kind::Named, &mut nested, &mut uniq);
         variants.push(Variant { name: String::new(), attrs: vec![], kind: if kind == Kind::Named { VKind::Named } else { VKind::Tuple }, fields });
     } else {
@@ -280,7 +286,7 @@ fn gen_def(rng: &mut Rng, defs: &[Def], lo: usize, index: usize) -> Def {
     }
     // The generated data type mentions its extra parameter `MA` only through converted fields:
     // a definition needs at least one (otherwise rustc rejects `…SaveloadData<MA>`: unused parameter).
-    if !variants.iter().any(|v| v.fields.iter().any(field_is_converted)) {
+    if !fieldless && !variants.iter().any(|v| v.fields.iter().any(field_is_converted)) {
         let v = variants.iter_mut().find(|v| v.kind != VKind::Unit);
         match v {
             Some(v) => {
@@ -319,7 +325,7 @@ fn gen_def(rng: &mut Rng, defs: &[Def], lo: usize, index: usize) -> Def {
         tattrs.push(TAttr::Other("doc=\"t\"".into()));
     }
     let depth = 1 + variants.iter().flat_map(|v| v.fields.iter()).map(|f| ty_depth(&f.ty, defs)).max().unwrap_or(0);
-    Def { name: format!("T{}", index), nparams, kind, variants, tattrs, depth }
+    Def { name: format!("T{}", index), nparams, kind, variants, tattrs, depth, comp_only: fieldless }
 }
 
 fn ty_mentions(ty: &Ty, p: usize) -> bool {
@@ -497,7 +503,7 @@ fn tattr_rust(a: &TAttr) -> String {
 
 fn def_rust(d: &Def, defs: &[Def]) -> String {
     let mut s = String::new();
-    s.push_str("#[derive(ConvertSaveload, Component, Clone, Debug, PartialEq)]\n");
+    s.push_str(if d.comp_only { "#[derive(Component, Clone, Debug, PartialEq)]\n" } else { "#[derive(ConvertSaveload, Component, Clone, Debug, PartialEq)]\n" });
     for a in &d.tattrs {
         s.push_str(&tattr_rust(a));
         s.push('\n');
@@ -520,6 +526,9 @@ fn def_rust(d: &Def, defs: &[Def]) -> String {
     };
     match d.kind {
         Kind::Named => write!(s, "struct {}{}{} {{ {} }}\n", d.name, generics, wh, fields_rust(&d.variants[0].fields, true)).unwrap(),
+        // a field-less tuple struct is written as a unit struct for every other definition index
+        Kind::Tuple if d.variants[0].fields.is_empty() && d.name.as_bytes().last().map(|b| b % 2 == 0).unwrap_or(false) =>
+            write!(s, "struct {}{}{};\n", d.name, generics, wh).unwrap(),
         Kind::Tuple => write!(s, "struct {}{}({}){};\n", d.name, generics, fields_rust(&d.variants[0].fields, false), wh).unwrap(),
         Kind::Enum => {
             write!(s, "enum {}{}{} {{\n", d.name, generics, wh).unwrap();
@@ -743,6 +752,7 @@ fn gen_blocks(rng: &mut Rng, defs: &[Def], lo: usize, k: usize) -> Vec<Block> {
         for _ in 0..extra {
             plan.push(rng.below(d.variants.len() as u64) as usize);
         }
+        if d.comp_only { plan.clear(); }   // only the `type` line (storage selection)
         for vi in plan {
             let mut used = Vec::new();
             let (fields, _) = gen_fields_val(rng, d, vi, &args, defs, &mut used);
